@@ -232,6 +232,9 @@ def view(ctx, f, depth=3, stop=(), _stack=(), force=()):
             # early returns of the helper that propagate an error through `?` at the call site are exits of the caller too
             if c.get('parent') == 'try':
                 for r in G.get('returns', []):
+                    rv = vt.unvar(r.get('v')) if isinstance(r.get('v'), dict) else None
+                    if isinstance(rv, dict) and ((rv.get('k') == 'call' and rv.get('recv') is None and str(rv.get('f')) in ('Ok', 'Some')) or rv.get('k') == 'some'):
+                        continue    # `return Ok(x)` inside the helper: `?` unwraps it, the caller goes on
                     r2 = _subst(r, env)
                     out.setdefault('returns', [])
                     out['returns'] = list(out['returns']) + [dict(r2, guard=list(c.get('guard', [])) + list(r2.get('guard', [])), via=g['name'])]
